@@ -304,6 +304,28 @@ var targets = []target{
 		StructFields: map[string][]string{"Claim": {"GlobalExitRoot"}, "Root": {"Index"}, "L1InfoTreeLeaf": {"L1InfoTreeIndex"}},
 		TypeAlias:    map[string]string{"bridgesync.Claim": "Claim", "treetypes.Root": "Root"},
 		Funcs:        []string{"L1InfoTreeDataQuerier.CheckIfClaimsArePartOfFinalizedL1InfoTree"}},
+	{File: "aggsender/flows/flow_aggchain_prover.go", Out: "GenAdjustRange.v",
+		Module: "aggsender/flows/flow_aggchain_prover.go (adjustBlockRange: the certificate is cut to the end block the prover proved), on top of Gen/GenBuildParams.v",
+		IntLit: true, Hash: true, Imports: []string{"Gen.GenBuildParams"},
+		Structs:       []string{"Bridge", "Claim", "CertificateHeader", "CertificateBuildParams"},
+		ExternStructs: []string{"Bridge", "Claim", "CertificateHeader", "CertificateBuildParams"},
+		StructsFrom: map[string]string{"Bridge": "bridgesync/processor.go", "Claim": "bridgesync/processor.go", "CertificateHeader": "aggsender/types/types.go",
+			"CertificateBuildParams": "aggsender/types/certificate_build_params.go"},
+		StructFields: map[string][]string{
+			"Bridge": {"BlockNum", "Metadata", "DepositCount"}, "Claim": {"BlockNum", "Metadata"}, "CertificateHeader": {"Height", "FromBlock"},
+			"CertificateBuildParams": {"FromBlock", "ToBlock", "Bridges", "Claims", "RetryCount", "LastSentCertificate", "CertificateType"}},
+		IntTypes:  []string{"CertificateType"},
+		TypeAlias: map[string]string{"types.CertificateBuildParams": "CertificateBuildParams"},
+		ExternFuncs: map[string]externFn{
+			"CertificateBuildParams.Range": {Rets: []ty{{k: kOpt, sub: []ty{{k: kStruct, name: "CertificateBuildParams"}}}, {k: kErr}}}},
+		Funcs: []string{"adjustBlockRange"}},
+	{File: "aggsender/flows/flow_aggchain_prover.go", Out: "GenLastProven.v",
+		Module: "aggsender/flows/flow_aggchain_prover.go (getLastProvenBlock: the block after which the prover is asked to prove)",
+		Ctx:    "AggchainProverFlow", CtxCalls: map[string]ctxCall{"StartL2Block": {Var: "startL2Block", Rets: []ty{{k: kInt}}}},
+		Structs: []string{"CertificateHeader"}, StructsFrom: map[string]string{"CertificateHeader": "aggsender/types/types.go"},
+		StructFields: map[string][]string{"CertificateHeader": {"ToBlock"}},
+		TypeAlias:    map[string]string{"types.CertificateHeader": "CertificateHeader"},
+		Funcs:        []string{"AggchainProverFlow.getLastProvenBlock"}},
 	{File: "aggsender/flows/flow_base.go", Out: "GenGetParams.v",
 		Module: "aggsender/flows/flow_base.go (GetCertificateBuildParamsInternal: which certificate the flows set out to build), on top of Gen/GenBuildParams.v",
 		IntLit: true, Hash: true, Ctx: "baseFlow", Imports: []string{"Gen.GenBuildParams"}, DropParams: []string{"ctx"},
@@ -2969,7 +2991,17 @@ func (t *tr) run() string {
 		}
 		o.WriteString("\n")
 	}
+	if t.tg.Ctx == "" && len(t.panics) > 0 { // functions without a context receiver: the panic parameters get a section of their own
+		o.WriteString("Section Panics.\n(* what a function returns when it dereferences a nil pointer (Go panics): a parameter, so that a theorem proved for\n   every value of it is a theorem about the runs that do not panic *)\n")
+		for _, d := range t.panics {
+			o.WriteString(d + "\n")
+		}
+		o.WriteString("\n")
+	}
 	o.WriteString(strings.Join(defs, "\n"))
+	if t.tg.Ctx == "" && len(t.panics) > 0 {
+		o.WriteString("End Panics.\n")
+	}
 	if t.tg.Ctx != "" {
 		fmt.Fprintf(&o, "End %s.\n", t.tg.Ctx)
 	}
